@@ -9,5 +9,9 @@ package forwarder
 //@   abstract
 //@   nosafety all pre
 //@   assert at store dns.MsgHdr.Id#1: value == req.Id
+//@   # C06 ("every reply has QR set and echoes the query's ... opcode"): whatever the upstream put in those bits
+//@   assert at store dns.MsgHdr.Response#1: value
+//@   assert at store dns.MsgHdr.Opcode#1: value == req.Opcode
+//@   assert at call (middleware.ResponseWriter).WriteMsg#1: calls("(middleware.ResponseWriter).WriteMsg") == 0
 //@   assert at store dns.Question.Name#1: value == req.Question[0].Name
 //@   assert at store dns.MsgHdr.CheckingDisabled#2: value == clientCD
